@@ -137,6 +137,32 @@ static void *remap_fragment(void *ptr, void *oldRegion, size_t newSize, size_t g
     g_aligned = alignedSize; g_request = requestSize; g_proceed = true;
     return ptr;
 }
+#ifdef LLOC
+/* MemoryPool::getFromLLOCache (every large-object allocation, aligned or not): allocationSize = alignToBin(size + headers + alignment); the request must be refused when that
+   cannot be represented.  The statements between `size_t headersSize =` and `if (tls) {` are sliced verbatim into the body below; falling through means the code goes on to
+   allocate allocationSize bytes and to place `size` user bytes behind the headers at an `alignment` boundary inside them. */
+static size_t SIZEOF_LargeMemoryBlock, SIZEOF_LargeObjectHdr; size_t g_alloc_size; bool g_lloc_proceed;
+static void *lloc_fragment(size_t size, size_t alignment) {
+    g_lloc_proceed = false;
+#include "lloc_frag.inc"
+    g_alloc_size = allocationSize; g_lloc_proceed = true;
+    return (void *)1;
+}
+size_t IN_size, IN_alignment;
+void h_lloc(void) {
+    size_t size = IN_size = nondet_size_t(), alignment = IN_alignment = nondet_size_t();
+    SIZEOF_LargeMemoryBlock = nondet_size_t(); SIZEOF_LargeObjectHdr = nondet_size_t();
+    __CPROVER_assume(SIZEOF_LargeMemoryBlock >= 8 && SIZEOF_LargeMemoryBlock <= 4096 && SIZEOF_LargeObjectHdr >= 8 && SIZEOF_LargeObjectHdr <= 4096);
+    __CPROVER_assume(alignment >= 64 && (alignment & (alignment - 1)) == 0);      /* callers: largeObjectAlignment, or a power of two validated by the entry points (jobs *.args) */
+    lloc_fragment(size, alignment);
+    if (g_lloc_proceed) {
+        size_t hdrs = SIZEOF_LargeMemoryBlock + SIZEOF_LargeObjectHdr;
+        OBLIGATION(g_alloc_size >= size && g_alloc_size - size >= hdrs && g_alloc_size - size - hdrs >= alignment, "C18.overflow: getFromLLOCache goes on to allocate only if the block really holds headers + alignment slack + size bytes - a request whose size+header+alignment cannot be represented (the sum, or its rounding to a bin, wraps) is refused with nullptr");
+        OBLIGATION(g_alloc_size <= SIZE_MAX - ((size_t)1 << 16), "C18.overflow: the size passed on to the backend leaves room for the region overhead added in addNewRegion (no second wrap)");
+    }
+    VACUITY_END();
+}
+#endif
 size_t IN_newSize, IN_offset, IN_gran;
 void h_remap(void) {
     size_t newSize = IN_newSize = nondet_size_t(), off = IN_offset = nondet_size_t(), gran = IN_gran = nondet_size_t();
@@ -150,6 +176,458 @@ void h_remap(void) {
     if (g_proceed) {
         OBLIGATION(g_aligned >= newSize && g_aligned - newSize >= off, "C18.overflow: Backend::remap goes on to resize the mapping only if the new block really holds offset + newSize bytes - a request whose size cannot be represented (newSize + offset, or its rounding to a bin, wraps) must be refused");
         OBLIGATION(g_request >= g_aligned && g_request - g_aligned >= SIZEOF_MemRegion + SIZEOF_LastFreeBlock, "C18.overflow: the mapping requested covers the region header, the block and the trailing marker (no wrap in the page rounding)");
+    }
+    VACUITY_END();
+}
+#endif
+
+#ifdef GETBIN
+/* Backend::IndexedBins::getFromBin: the search of one bin for a free block that can serve `size` bytes (slab-aligned when needAlignedRes).
+   Memory model: block headers are ADDRESSES - a candidate free block is [g_addr, g_addr+g_S) anywhere below 2^56 (its header at g_addr, the header of its
+   right neighbour at g_addr+g_S; no wrap-around, the region always ends in a LastFreeBlock).  All the (uintptr_t) arithmetic of the sliced code runs unchanged on these
+   pointers; the sliced code dereferences a block only through FB_WR_sizeTmp / BIN_NEXT / the size-word primitives below.
+   The bin is an ARBITRARY sequence of candidates: the list link read `curr->next` (BIN_NEXT) yields NULL or a fresh arbitrary block, so the loop contract covers every list.
+   Size words (GuardedSize): tryLock / unlock are the trusted atomic primitives; a word this thread does not hold is free (== the block's size) or held by another
+   thread (LOCKED / COAL_BLOCK) - chosen afresh at every access (rely); a word this thread holds is changed by nobody else. */
+#define VERIF_NBINS 4      /* the number of bins is immaterial here: binIdx is any valid index */
+typedef struct MallocMutex { int held; } MallocMutex;
+typedef struct BackendSync { intptr_t inFlyBlocks, binsModifications; } BackendSync;
+typedef struct Bin Bin; typedef struct IndexedBins IndexedBins;
+static size_t GuardedSize_tryLock(struct GuardedSize *w, int state); static void GuardedSize_unlock(struct GuardedSize *w, size_t size); static void GuardedSize_initLocked(struct GuardedSize *w);
+#define LOOP_markBlocks_1
+#include "fb.inc"
+struct Bin { FreeBlock *head; FreeBlock *tail; MallocMutex tLock; };
+struct IndexedBins { int bitMask; Bin freeBins[VERIF_NBINS]; };
+static uintptr_t g_addr; static size_t g_S; static bool g_meMine, g_leftMine; static uintptr_t g_meV, g_leftV;
+static intptr_t g_consumed_before; static int g_removed; static FreeBlock *g_removed_blk; static int g_lock_taken, g_lock_released; static bool g_candidates;
+static FreeBlock *g_szTmp_blk; static size_t g_szTmp; static int g_szTmp_writes;
+#define CUR ((FreeBlock *)g_addr)
+#define RIGHT ((FreeBlock *)(g_addr + g_S))
+#define ADDR_TOP ((uintptr_t)1 << 56)      /* user-space addresses: a block and the header behind it lie below 2^56 (also keeps CBMC's pointer-typed field offsets `&p->leftL` exact: its pointers carry a 56-bit offset) */
+#define BLOCK_OK (g_addr >= 4096 && g_addr < ADDR_TOP - 2 * sizeof(FreeBlock) && g_S >= FreeBlock_minBlockSize && g_S <= ADDR_TOP - sizeof(FreeBlock) - g_addr)
+static size_t GuardedSize_tryLock(struct GuardedSize *w, int state) {
+    VERIF_ASSERT(state <= GuardedSize_MAX_LOCKED_VAL, "state <= MAX_LOCKED_VAL");
+    bool isMe = (w == &CUR->myL), isLeft = (w == &RIGHT->leftL);
+    OBLIGATION(isMe || isLeft, "C18.bin: the only size words the search locks are the candidate's own and the left-size word in the header right behind the candidate");
+    if (isMe) { if (!g_meMine) g_meV = nondet_bool() ? g_S : (nondet_bool() ? GuardedSize_LOCKED : GuardedSize_COAL_BLOCK);
+                uintptr_t old = g_meV; if (old > GuardedSize_MAX_LOCKED_VAL) { g_meV = state; g_meMine = true; } return old; }
+    if (!g_leftMine) g_leftV = nondet_bool() ? g_S : (nondet_bool() ? GuardedSize_LOCKED : GuardedSize_COAL_BLOCK);
+    uintptr_t old = g_leftV; if (old > GuardedSize_MAX_LOCKED_VAL) { g_leftV = state; g_leftMine = true; } return old;
+}
+static void GuardedSize_unlock(struct GuardedSize *w, size_t size) {
+    bool isMe = (w == &CUR->myL), isLeft = (w == &RIGHT->leftL);
+    OBLIGATION(isMe || isLeft, "C18.bin: the only size words the search releases are the candidate's own and the left-size word in the header right behind the candidate");
+    OBLIGATION(isMe ? g_meMine : g_leftMine, "C18.bin: a size word is released only by the thread that locked it");
+    VERIF_ASSERT(size > GuardedSize_MAX_LOCKED_VAL, "size > MAX_LOCKED_VAL");
+    OBLIGATION(size == g_S, "C18.bin: a candidate that is passed over is marked free again with its own size (both size words)");
+    if (isMe) { g_meV = size; g_meMine = false; } else { g_leftV = size; g_leftMine = false; }
+}
+static void GuardedSize_initLocked(struct GuardedSize *w) { OBLIGATION(0, "C18.bin: the search initialises no header"); }
+static FreeBlock *candidate(bool first) {
+    if (!first) OBLIGATION(!g_meMine && !g_leftMine, "C18.bin: a candidate that does not fit is unlocked again before the search moves on");
+    if (nondet_bool()) return NULL;
+    g_addr = nondet_uintptr_t(); g_S = nondet_size_t(); __CPROVER_assume(BLOCK_OK);
+    g_meMine = g_leftMine = false; g_candidates = true;
+    return CUR;
+}
+#define LOAD_empty_LOAD_1(x) (nondet_bool() ? (FreeBlock *)(uintptr_t)4096 : (FreeBlock *)NULL)     /* lock-free emptiness probe: any answer */
+#define LOAD_getFromBin_LOAD_1(x) candidate(true)
+#define ATOMIC_LOAD_AT(site, x) LOAD_##site(x)
+#define BIN_NEXT(c) candidate(false)
+#define FB_WR_sizeTmp(p, v) do { g_szTmp_blk = (p); g_szTmp = (v); g_szTmp_writes++; } while (0)
+#define ATOMIC_POSTINC(x) ((x)++)
+#define TRYLOCK_MUTEX(m, wait, lockedp) bool VERIF_taken = ((wait) || nondet_bool()); if (VERIF_taken) { OBLIGATION((m).held == 0, "C18.bin: the bin lock is not taken twice"); (m).held++; g_lock_taken++; } if (lockedp) *(lockedp) = VERIF_taken
+#define UNLOCK_IF_TAKEN(m, wait, lockedp) do { if (VERIF_taken) { (m).held--; g_lock_released++; } } while (0)
+/* `goto try_next`: the search starts over after meeting a block that another thread holds.  Induction over restarts: the state at the jump must be an entry state
+   (nothing locked, consumed, removed; bin lock released); the continuation is then the function's own behaviour from an entry state.  Termination is not claimed. */
+#define RETRY_FROM(label) do { OBLIGATION(!g_meMine && !g_leftMine && sync->inFlyBlocks == g_consumed_before && g_removed == 0 && g_szTmp_writes == 0 && b->tLock.held == 0 && fBlock == NULL, \
+      "C18.bin: when the search starts over after meeting a block another thread holds, nothing is left locked, consumed or removed and the bin lock is released"); __CPROVER_assume(0); } while (0)
+static void STUB_Bin_removeBlock(Bin *b, FreeBlock *f) { OBLIGATION(b->tLock.held == 1, "C18.bin: a block is unlinked from its bin only under the bin lock"); g_removed++; g_removed_blk = f; }
+static void STUB_bitMask_set(IndexedBins *s, int idx, bool v) { }
+#define LOOP_getFromBin_1 __CPROVER_assigns(curr, fBlock, g_addr, g_S, g_meMine, g_leftMine, g_meV, g_leftV, g_candidates, g_removed, g_removed_blk, g_lock_released, b->tLock.held, g_szTmp_blk, g_szTmp, g_szTmp_writes, sync->inFlyBlocks) \
+   __CPROVER_loop_invariant(fBlock == NULL && g_removed == 0 && g_szTmp_writes == 0 && sync->inFlyBlocks == g_consumed_before && b->tLock.held == 1 && VERIF_taken && g_lock_taken == 1 && g_lock_released == 0 && !g_meMine && !g_leftMine \
+        && (curr == NULL || (BLOCK_OK && (uintptr_t)curr == g_addr && g_candidates)))
+#include "getfrombin.inc"
+size_t IN_size, IN_addr, IN_S; bool IN_needAligned, IN_alignedBin;
+void h_getfrombin(void) {
+    static IndexedBins bins; BackendSync sync; int nlocked = nondet_int(); __CPROVER_assume(nlocked >= 0 && nlocked < 1000);
+    int binIdx = nondet_int(); __CPROVER_assume(binIdx >= 0 && binIdx < VERIF_NBINS);
+    bins.freeBins[binIdx].tLock.held = 0;
+    sync.inFlyBlocks = nondet_long(); __CPROVER_assume(sync.inFlyBlocks >= 0 && sync.inFlyBlocks < (1L << 40)); g_consumed_before = sync.inFlyBlocks;
+    g_removed = g_lock_taken = g_lock_released = g_szTmp_writes = 0; g_candidates = false; g_meMine = g_leftMine = false; g_addr = 0; g_S = 0;
+    size_t size = IN_size = nondet_size_t(); bool needAlignedRes = IN_needAligned = nondet_bool(), alignedBin = IN_alignedBin = nondet_bool(), wait = nondet_bool();
+    /* callers: a slab-aligned result is only ever asked for num*slabSize bytes (getSlabBlock); any other request has any size */
+    __CPROVER_assume(!needAlignedRes || (size >= slabSize && size <= ((size_t)1 << 30) && (size & (slabSize - 1)) == 0));
+    FreeBlock *r = IndexedBins_getFromBin(&bins, binIdx, &sync, size, needAlignedRes, alignedBin, wait, nondet_bool() ? &nlocked : NULL);
+    IN_addr = g_addr; IN_S = g_S;
+    OBLIGATION(bins.freeBins[binIdx].tLock.held == 0 && g_lock_taken == g_lock_released && g_lock_taken <= 1, "C18.bin: the bin lock is released on every path");
+    if (r == NULL) {
+        OBLIGATION(sync.inFlyBlocks == g_consumed_before && g_removed == 0, "C18.bin: a search that finds nothing consumes and unlinks nothing");
+        OBLIGATION(!g_meMine && !g_leftMine, "C18.bin: a search that finds nothing leaves no block locked");
+        OBLIGATION(g_lock_taken == 1 || !g_candidates, "C18.bin: no block is examined without the bin lock");
+    } else {
+        OBLIGATION(r == CUR && g_candidates, "C18.bin: the block handed out is one of the bin's blocks");
+        OBLIGATION(g_szTmp_writes == 1 && g_szTmp_blk == r && g_szTmp == g_S, "C18.bin: the block handed out carries its true size (sizeTmp)");
+        OBLIGATION(g_meMine && g_leftMine && g_meV == GuardedSize_LOCKED && g_leftV == GuardedSize_LOCKED, "C18.bin: the block handed out is locked on both sides (own size word and the right neighbour's left-size word), so no other thread can take or merge it");
+        OBLIGATION(sync.inFlyBlocks == g_consumed_before + 1, "C18.bin: exactly one blockConsumed is charged for the block handed out");
+        OBLIGATION(g_removed == 1 && g_removed_blk == r, "C18.bin: the block handed out is unlinked from the bin exactly once");
+        if (alignedBin || !needAlignedRes) {
+            OBLIGATION(g_S >= size && (g_S - size == 0 || g_S - size >= FreeBlock_minBlockSize), "C18.bin: the request fits into the free block it is cut from, and what is left over is nothing or can hold a block header (no metadata write into the right neighbour)");
+        } else {
+            size_t lead = ((size_t)0 - g_addr) & (slabSize - 1);     /* distance from the block start to the next slab boundary */
+            OBLIGATION(lead <= g_S && size <= g_S - lead, "C18.bin: a slab-aligned request served from an unaligned block fits when measured from the ALIGNED start: [newB, newB+size) lies inside the free block [curr, curr+blockSz) - it never reaches into the live right neighbour");
+            OBLIGATION(lead == 0 || lead >= FreeBlock_minBlockSize, "C18.bin: the piece left in front of the aligned start is nothing or can hold a block header");
+            OBLIGATION(!(lead <= g_S && size <= g_S - lead) || g_S - lead - size == 0 || g_S - lead - size >= FreeBlock_minBlockSize, "C18.bin: the piece left behind the aligned block is nothing or can hold a block header");
+        }
+    }
+    VACUITY_END();
+}
+#endif
+
+#ifdef SPLIT
+/* Backend::splitBlock: cuts `num` blocks of `size` bytes out of a locked free block [g_B, g_B+g_S) and gives the rest back through coalescAndPut.
+   Blocks are addresses (see GETBIN).  Entry state = what getFromBin guarantees (job bin.getFromBin): the block's own size word and the left-size word of the header
+   right behind it are LOCKED, sizeTmp is the true size, and the request fits (general case: from the block start / end; special case: from the slab-aligned start).
+   GuardedSize::initLocked is the trusted primitive "store LOCKED"; the harness records which words were locked and checks that each lies inside the block. */
+typedef struct ExtMemoryPool { bool fixedPool; } ExtMemoryPool;
+typedef struct Backend { ExtMemoryPool *extMemPool; } Backend;
+static size_t GuardedSize_tryLock(struct GuardedSize *w, int state); static void GuardedSize_unlock(struct GuardedSize *w, size_t size); static void GuardedSize_initLocked(struct GuardedSize *w);
+#define LOOP_markBlocks_1
+#include "fb.inc"
+#define ADDR_TOP ((uintptr_t)1 << 56)      /* user-space addresses lie below 2^56 (see GETBIN) */
+#define NW 12
+static uintptr_t g_B; static size_t g_S;
+static uintptr_t g_lw[NW]; static int g_nlw;                       /* size words set to LOCKED by this call */
+static uintptr_t g_put_addr[3]; static size_t g_put_size[3]; static int g_nput;
+static size_t GuardedSize_tryLock(struct GuardedSize *w, int state) { OBLIGATION(0, "C18.split: splitting takes no lock (the block is already locked)"); return 0; }
+static void GuardedSize_unlock(struct GuardedSize *w, size_t size) { OBLIGATION(0, "C18.split: splitting itself frees nothing (coalescAndPut does)"); }
+static void GuardedSize_initLocked(struct GuardedSize *w) {
+    uintptr_t a = (uintptr_t)w;
+    OBLIGATION(a >= g_B && a - g_B <= g_S - sizeof(GuardedSize), "C18.split: every block header written while splitting lies inside the free block being split - no metadata write into a neighbouring (live) block");
+    OBLIGATION(g_nlw < NW, "C18.split: (harness) bounded number of headers");
+    if (g_nlw < NW) g_lw[g_nlw++] = a;
+}
+static bool word_locked(uintptr_t a) { bool r = false; for (int i = 0; i < NW; i++) if (i < g_nlw && g_lw[i] == a) r = true; return r; }
+/* own size word of the block at address a / left-size word of the header at address a */
+static bool my_word_locked(uintptr_t a) { return a == g_B || word_locked((uintptr_t)&((FreeBlock *)a)->myL); }
+static bool left_word_locked(uintptr_t a) { return a == g_B + g_S || word_locked((uintptr_t)&((FreeBlock *)a)->leftL); }
+#define FB_RD_sizeTmp(p) (fb_rd_sizeTmp(p))
+static size_t fb_rd_sizeTmp(FreeBlock *p) { OBLIGATION((uintptr_t)p == g_B, "C18.split: the only size consulted is that of the block being split"); return g_S; }
+static void STUB_Backend_coalescAndPut(Backend *self, FreeBlock *blk, size_t sz, bool aligned) {
+    uintptr_t a = (uintptr_t)blk;
+    OBLIGATION(a >= g_B && sz <= g_S && a - g_B <= g_S - sz, "C18.split: a remainder given back lies inside the free block it was cut from");
+    OBLIGATION(sz >= FreeBlock_minBlockSize, "C18.split: a remainder given back can hold a free-block header (its list links are not written into the next block)");
+    OBLIGATION(my_word_locked(a) && left_word_locked(a + sz), "C18.split: a remainder given back is delimited by LOCKED size words (its own and the left-size word of the header behind it), so that no other thread merges across the cut while it is processed");
+    OBLIGATION(!aligned || ((a + sz) & (slabSize - 1)) == 0, "C18.split: a remainder filed as slab-aligned really ends on a slab boundary");
+    OBLIGATION(g_nput < 3, "C18.split: at most two remainders (left and right)");
+    if (g_nput < 3) { g_put_addr[g_nput] = a; g_put_size[g_nput] = sz; g_nput++; }
+}
+#include "split.inc"
+size_t IN_addr, IN_S, IN_size; int IN_num; bool IN_blockAligned, IN_needAligned;
+void h_split(void) {
+    ExtMemoryPool pool; Backend be; be.extMemPool = &pool; pool.fixedPool = nondet_bool();
+    g_B = IN_addr = nondet_uintptr_t(); g_S = IN_S = nondet_size_t(); g_nlw = 0; g_nput = 0;
+    __CPROVER_assume(g_B >= 4096 && g_B < ADDR_TOP - 2 * sizeof(FreeBlock) && g_S >= FreeBlock_minBlockSize && g_S <= ADDR_TOP - sizeof(FreeBlock) - g_B);
+    bool blockIsAligned = IN_blockAligned = nondet_bool(), needAlignedBlock = IN_needAligned = nondet_bool();
+    /* one job per case (SPLIT_CASE): 1 = slab request from an unaligned block (special case), 2 = slab request from a slab-aligned block, 3 = one block of any size */
+    __CPROVER_assume(SPLIT_CASE == 1 ? (needAlignedBlock && !blockIsAligned) : SPLIT_CASE == 2 ? (needAlignedBlock && blockIsAligned) : !needAlignedBlock);
+    /* callers (getLargeBlock, getBackRefSpace: one block of any size, unaligned; getSlabBlock: 1..numOfSlabAllocOnMiss slabs, aligned) */
+    bool slabs = needAlignedBlock; int num = 1; size_t size;
+    if (slabs) { num = nondet_int(); __CPROVER_assume(num >= 1 && num <= numOfSlabAllocOnMiss); size = slabSize; } else { size = nondet_size_t(); __CPROVER_assume(size >= 1); }
+    IN_num = num; IN_size = size;
+    size_t total = slabs ? (size_t)num * slabSize : size;
+    /* slabAligned attribute of a block: its right end is slab aligned */
+    __CPROVER_assume(!blockIsAligned || ((g_B + g_S) & (slabSize - 1)) == 0);
+    size_t lead = ((size_t)0 - g_B) & (slabSize - 1);
+    if (needAlignedBlock && !blockIsAligned) {   /* special case: guaranteed by getFromBin (bin.getFromBin) and only reached in fixed pools */
+        __CPROVER_assume(pool.fixedPool);
+        __CPROVER_assume(lead <= g_S && total <= g_S - lead && (lead == 0 || lead >= FreeBlock_minBlockSize) && (g_S - lead - total == 0 || g_S - lead - total >= FreeBlock_minBlockSize));
+    } else {
+        __CPROVER_assume(g_S >= total && (g_S - total == 0 || g_S - total >= FreeBlock_minBlockSize));
+    }
+    FreeBlock *r = slabs ? Backend_splitBlock(&be, (FreeBlock *)g_B, num, slabSize, blockIsAligned, needAlignedBlock)
+                         : Backend_splitBlock(&be, (FreeBlock *)g_B, 1, size, blockIsAligned, needAlignedBlock);
+    uintptr_t ra = (uintptr_t)r;
+    OBLIGATION(ra >= g_B && total <= g_S && ra - g_B <= g_S - total, "C18.split: the block handed out lies inside the free block it was cut from (it does not overlap the live right neighbour)");
+    OBLIGATION(!needAlignedBlock || (ra & (slabSize - 1)) == 0, "C18.split: a slab request is served slab-aligned");
+    OBLIGATION(my_word_locked(ra) && left_word_locked(ra + total), "C18.split: the block handed out is delimited by LOCKED size words");
+    size_t sum = total; for (int i = 0; i < 3; i++) if (i < g_nput) sum += g_put_size[i];
+    OBLIGATION(g_nput <= 2 && sum == g_S, "C18.split: the block handed out and the remainders given back add up to the original block - nothing is lost");
+    for (int i = 0; i < 3; i++) if (i < g_nput) {
+        OBLIGATION(g_put_addr[i] + g_put_size[i] <= ra || ra + total <= g_put_addr[i], "C18.split: a remainder given back does not overlap the block handed out");
+        for (int j = 0; j < 3; j++) if (j < i) OBLIGATION(g_put_addr[i] + g_put_size[i] <= g_put_addr[j] || g_put_addr[j] + g_put_size[j] <= g_put_addr[i], "C18.split: the remainders given back do not overlap each other");
+    }
+    if (slabs && num > 1) { int k = nondet_int(); __CPROVER_assume(k >= 1 && k < num);     /* any inner slab of a multi-slab request */
+        OBLIGATION(my_word_locked(ra + (size_t)k * slabSize) && left_word_locked(ra + (size_t)k * slabSize), "C18.split: every slab of a multi-slab block gets its own (locked) header inside the block handed out"); }
+    VACUITY_END();
+}
+#endif
+
+#ifdef OOM
+/* The out-of-memory ladder: Backend::genericGetBlock -> (bins) -> scanCoalescQ / softCachesCleanup -> askMemFromOS -> addNewRegion (raw allocation, may be REFUSED at any
+   call) -> releaseMemInCaches (hardCachesCleanup, waitTillBlockReleased, locked bins) -> nullptr.  Every retry loop has a loop contract: any number of rounds.
+   Two shared counters are followed rely/guarantee style (SC atomics): BackendSync::inFlyBlocks (blocks taken out of the bins and not yet reported back) and
+   MemExtendingSema::active (threads currently extending memory, at most 3).  Other threads may change either at any time; the ghost g_my_* is THIS request's share.
+   Stubs (trusted contracts): IndexedBins::findBlock = NULL or one block with exactly one blockConsumed (proved for getFromBin in bin.getFromBin); addNewRegion = NULL
+   (raw memory refused) or VALID_BLOCK_IN_BIN (addToBin) or one block with one blockConsumed (startUseBlock); splitBlock (proved in backend.splitBlock.*). */
+typedef struct MemExtendingSema { intptr_t active; } MemExtendingSema;
+typedef struct BackendSync { intptr_t inFlyBlocks, binsModifications; } BackendSync;
+typedef struct IndexedBins { int unused; } IndexedBins;
+typedef struct ExtMemoryPool { bool fixedPool; } ExtMemoryPool;
+typedef struct Backend { ExtMemoryPool *extMemPool; BackendSync bkndSync; MemExtendingSema memExtendingSema; size_t maxRequestedSize; intptr_t backendCleanCnt; IndexedBins freeSlabAlignedBins, freeLargeBlockBins; } Backend;
+static size_t GuardedSize_tryLock(struct GuardedSize *w, int state) { __CPROVER_assert(0, "not used"); return 0; }
+static void GuardedSize_unlock(struct GuardedSize *w, size_t size) { __CPROVER_assert(0, "not used"); }
+static void GuardedSize_initLocked(struct GuardedSize *w) { __CPROVER_assert(0, "not used"); }
+#define LOOP_markBlocks_1
+#include "fb.inc"
+#include "oom_types.inc"
+static int g_my_inFly, g_my_sema, g_taken, g_split; static bool g_raw_refused; static size_t g_maxBinned; static FreeBlock g_blk;
+#define CNT_MAX ((intptr_t)1 << 40)
+#define INV_INFLY(x) ((x) >= g_my_inFly && (x) < CNT_MAX)
+#define INV_SEMA(x) ((x) >= g_my_sema && (x) >= 0 && (x) <= 3)
+#define ATOMIC_POSTINC_AT(site, x) POSTINC_##site(x)
+#define ATOMIC_FETCH_SUB_AT(site, x, v) FSUB_##site(x, v)
+#define ATOMIC_LOAD_AT(site, x) LOAD_##site(x)
+#define ATOMIC_CAS_AT(site, x, e, d) CAS_##site(x, e, d)
+#define POSTINC_blockConsumed_POSTINC_1(x) ({ (x) = nondet_long(); __CPROVER_assume(INV_INFLY(x) && (x) < CNT_MAX - 1); (x)++; g_my_inFly++; (x) - 1; })
+#define POSTINC_blockReleased_POSTINC_1(x) ({ (x) = nondet_long(); __CPROVER_assume((x) >= 0 && (x) < CNT_MAX); (x)++; })
+#define FSUB_blockReleased_FETCH_SUB_1(x, v) ({ (x) = nondet_long(); __CPROVER_assume(INV_INFLY(x)); OBLIGATION(g_my_inFly >= 1, "C18.oom: blockReleased is charged against a blockConsumed of this very request (the in-flight counter is not driven below the other threads' share)"); \
+      intptr_t old_ = (x); (x) -= (v); g_my_inFly--; old_; })
+#define LOAD_getNumOfMods_LOAD_1(x) ({ (x) = nondet_long(); __CPROVER_assume((x) >= 0 && (x) < CNT_MAX); (x); })
+#define LOAD_genericGetBlock_LOAD_1(x) ({ (x) = nondet_long(); __CPROVER_assume((x) >= 0 && (x) < CNT_MAX); (x); })
+#define LOAD_genericGetBlock_LOAD_2(x) LOAD_genericGetBlock_LOAD_1(x)
+#define LOAD_sema_wait_LOAD_1(x) ({ (x) = nondet_long(); __CPROVER_assume(INV_SEMA(x)); (x); })
+#define CAS_sema_wait_CAS_1(x, e, d) ({ (x) = nondet_long(); __CPROVER_assume(INV_SEMA(x)); bool ok_ = ((x) == *(e)); if (ok_) { (x) = (d); g_my_sema++; } else *(e) = (x); \
+      __CPROVER_assert(INV_SEMA(x), "C18.oom guarantee: at most three threads hold the memory-extension semaphore"); ok_; })
+#define FSUB_sema_signal_FETCH_SUB_1(x, v) ({ (x) = nondet_long(); __CPROVER_assume(INV_SEMA(x)); OBLIGATION(g_my_sema >= 1, "C18.oom: the memory-extension semaphore is signalled only by a request that holds it"); \
+      intptr_t old_ = (x); (x) -= (v); g_my_sema--; old_; })
+static void STUB_SpinWaitWhileEq(intptr_t *w, intptr_t v) { }
+#define LOOP_sema_wait_1 __CPROVER_assigns(prevCnt, rescanBins, self->active, g_my_sema) __CPROVER_loop_invariant(g_my_sema == 0 && !rescanBins && INV_SEMA(self->active))
+#define LOOP_askMemFromOS_1 __CPROVER_assigns(idx, g_raw_refused) __CPROVER_loop_invariant(idx <= NUM_OF_REG) __CPROVER_decreases(NUM_OF_REG - idx)
+#define OOM_INV ((block == NULL || block == (FreeBlock *)VALID_BLOCK_IN_BIN) /* no real block in hand */ && g_my_inFly == 0 && g_my_sema == 0 && g_taken == 0 && g_split == 0 && INV_INFLY(self->bkndSync.inFlyBlocks) && INV_SEMA(self->memExtendingSema.active) && self->maxRequestedSize < 4 * 1024 * 1024UL && (totalReqSize >= g_maxBinned || self->maxRequestedSize >= totalReqSize))
+#define LOOP_genericGetBlock_1 __CPROVER_assigns(block, lockedBinsThreshold, splittable, self->bkndSync.inFlyBlocks, self->bkndSync.binsModifications, self->memExtendingSema.active, self->backendCleanCnt, self->maxRequestedSize, \
+        g_my_inFly, g_my_sema, g_taken, g_raw_refused, g_blk.sizeTmp, g_blk.slabAligned) \
+   __CPROVER_loop_invariant(OOM_INV && splittable && (lockedBinsThreshold == 0 || lockedBinsThreshold == 2))
+#define LOOP_genericGetBlock_2 __CPROVER_assigns(block, numOfLockedBins, cleanCnt, self->bkndSync.inFlyBlocks, self->backendCleanCnt, g_my_inFly, g_taken, g_blk.sizeTmp, g_blk.slabAligned) \
+   __CPROVER_loop_invariant(OOM_INV)
+static int STUB_sizeToBin(size_t sz) { return nondet_int(); }
+static void STUB_Backend_requestBootstrapMem(Backend *self) { }
+static void STUB_AtomicUpdate_maxRequestedSize(Backend *self, size_t req) { if (req > self->maxRequestedSize && req < g_maxBinned) self->maxRequestedSize = req; }   /* monotone maximum of the binned request sizes */
+static bool STUB_Backend_scanCoalescQ(Backend *self, bool force) { return nondet_bool(); }
+static bool STUB_ExtMemoryPool_softCachesCleanup(ExtMemoryPool *p) { return nondet_bool(); }
+static bool STUB_ExtMemoryPool_hardCachesCleanup(ExtMemoryPool *p, bool w) { return nondet_bool(); }
+static bool STUB_BackendSync_waitTillBlockReleased(BackendSync *s, intptr_t cnt) { return nondet_bool(); }
+static size_t STUB_Backend_getMaxBinnedSize(Backend *self) { return g_maxBinned; }
+static void STUB_Backend_releaseCachesToLimit(Backend *self) { }
+static void BackendSync_blockConsumed(BackendSync *self);
+static FreeBlock *hand_out(BackendSync *sync, size_t atLeast, bool aligned) {
+    OBLIGATION(g_taken == 0, "C18.oom: no second block is taken while one is already in hand (it would be lost)");
+    g_blk.sizeTmp = nondet_size_t(); __CPROVER_assume(g_blk.sizeTmp >= atLeast); g_blk.slabAligned = aligned;
+    BackendSync_blockConsumed(sync); g_taken++; return &g_blk;
+}
+static FreeBlock *STUB_IndexedBins_findBlock(IndexedBins *bins, int nativeBin, BackendSync *sync, size_t size, bool needAligned, bool alignedBin, int *nLocked) {
+    int more = nondet_int(); __CPROVER_assume(more >= 0 && more <= 600); *nLocked += more;
+    if (nondet_bool()) return NULL;
+    return hand_out(sync, size, alignedBin);
+}
+static FreeBlock *STUB_Backend_addNewRegion(Backend *self, size_t size, MemRegionType type, bool addToBin) {
+    if (nondet_bool()) { g_raw_refused = true; return NULL; }      /* the raw allocation (OS / pool callback) is refused, or its memory is unusable */
+    if (addToBin) return (FreeBlock *)VALID_BLOCK_IN_BIN;
+    return hand_out(&self->bkndSync, size, type == MEMREG_SLAB_BLOCKS);
+}
+static FreeBlock *STUB_Backend_splitBlock(Backend *self, FreeBlock *b, int num, size_t size, bool isAligned, bool needAligned) {
+    OBLIGATION(b == &g_blk && g_taken == 1, "C18.oom: what is split is the block that was found");
+    g_split++; return b;
+}
+#include "oom.inc"
+size_t IN_size; int IN_num; bool IN_needAligned, IN_fixed;
+void h_oom(void) {
+    ExtMemoryPool pool; Backend be; be.extMemPool = &pool; pool.fixedPool = IN_fixed = nondet_bool();
+    g_maxBinned = nondet_bool() ? maxBinned_SmallPage : maxBinned_HugePage;
+    g_my_inFly = g_my_sema = g_taken = g_split = 0; g_raw_refused = false;
+    be.bkndSync.inFlyBlocks = nondet_long(); be.bkndSync.binsModifications = nondet_long(); be.memExtendingSema.active = nondet_long(); be.backendCleanCnt = nondet_long(); be.maxRequestedSize = nondet_size_t();
+    __CPROVER_assume(INV_INFLY(be.bkndSync.inFlyBlocks) && INV_SEMA(be.memExtendingSema.active) && be.maxRequestedSize < g_maxBinned);
+    bool needAlignedBlock = IN_needAligned = nondet_bool(); int num = IN_num = nondet_int(); size_t size = IN_size = nondet_size_t();
+    __CPROVER_assume(needAlignedBlock ? (num >= 1 && num <= 2 && size == 16 * 1024) : (num == 1 && size >= 1));
+    FreeBlock *r = needAlignedBlock ? Backend_genericGetBlock(&be, num, 16 * 1024, true) : Backend_genericGetBlock(&be, 1, size, false);
+    OBLIGATION(g_my_inFly == 0, "C18.oom: every blockConsumed charged for this request has its blockReleased - on the failure path as well as on success (no in-flight count is leaked, later requests do not wait for ever)");
+    OBLIGATION(g_my_sema == 0, "C18.oom: the memory-extension semaphore is given back on every path (a refused raw allocation does not leak a slot)");
+    if (r == NULL) {
+        OBLIGATION(g_taken == 0 && g_split == 0, "C18.oom: a request that fails has not swallowed a block");
+        OBLIGATION(g_raw_refused, "C18.oom: nullptr is reported only after asking for more raw memory was refused");
+    } else {
+        OBLIGATION(r == &g_blk && g_taken == 1, "C18.oom: the block handed out is the one block that was taken from the bins or from a new region");
+        OBLIGATION(g_split <= 1, "C18.oom: the block is split at most once");
+    }
+    VACUITY_END();
+}
+#endif
+
+#ifdef REGION
+/* Backend::addNewRegion + findBlockInRegion: a new raw region is asked from the OS / the pool's callback (which may REFUSE, or hand back a different size), a block is carved
+   out of it, and the region is registered for release at pool destruction.  Regions are addresses; sizeof(MemRegion) / sizeof(LastFreeBlock) are symbolic. */
+typedef struct MemRegion MemRegion;
+typedef struct ExtMemoryPool { bool fixedPool; } ExtMemoryPool;
+typedef struct MemRegionList { int unused; } MemRegionList;
+typedef struct Backend { ExtMemoryPool *extMemPool; MemRegionList regionList; } Backend;
+static size_t GuardedSize_tryLock(struct GuardedSize *w, int state) { __CPROVER_assert(0, "not used"); return 0; }
+static void GuardedSize_unlock(struct GuardedSize *w, size_t size) { __CPROVER_assert(0, "not used"); }
+static void GuardedSize_initLocked(struct GuardedSize *w) { __CPROVER_assert(0, "not used"); }
+#define LOOP_markBlocks_1
+#include "fb.inc"
+#undef slabSize
+#include "region_types.inc"
+#define ADDR_TOP ((uintptr_t)1 << 56)
+static size_t SIZEOF_MemRegion, SIZEOF_LastFreeBlock;
+static uintptr_t g_base; static size_t g_raw, g_requested; static bool g_refuse, g_asked; static int g_type;
+static int g_free_calls, g_add_calls, g_use_calls; static uintptr_t g_free_ptr, g_add_ptr, g_use_region, g_use_block; static size_t g_free_size; static bool g_use_addToBin;
+static int g_mr_type; static size_t g_mr_allocSz, g_mr_blockSz; static bool g_mr_type_set, g_mr_allocSz_set, g_mr_blockSz_set;
+static void mr_check(MemRegion *r) { OBLIGATION((uintptr_t)r == g_base, "C18.region: only the header of the region just obtained is touched"); }
+#define MR_WR_type(r, v) do { mr_check(r); g_mr_type = (v); g_mr_type_set = true; } while (0)
+#define MR_WR_allocSz(r, v) do { mr_check(r); g_mr_allocSz = (v); g_mr_allocSz_set = true; } while (0)
+#define MR_WR_blockSz(r, v) do { mr_check(r); g_mr_blockSz = (v); g_mr_blockSz_set = true; } while (0)
+#define MR_RD_type(r) (mr_check(r), g_mr_type)
+#define MR_RD_allocSz(r) (mr_check(r), g_mr_allocSz)
+#define MR_RD_blockSz(r) (mr_check(r), g_mr_blockSz)
+static void *STUB_Backend_allocRawMem(Backend *self, size_t *size) {
+    OBLIGATION(!g_asked, "C18.region: the raw allocator is asked once per region");
+    g_asked = true; g_requested = *size;
+    if (g_refuse) return NULL;                      /* refused: the size is left alone */
+    /* callback contract: a growing pool's callback / the OS returns at least what was asked; a fixed pool hands over its one buffer whatever its size, and is only ever
+       asked by requestBootstrapMem (slab region) */
+    __CPROVER_assume(self->extMemPool->fixedPool ? g_type == MEMREG_SLAB_BLOCKS : g_raw >= *size);
+    *size = g_raw; return (void *)g_base;
+}
+static bool STUB_Backend_freeRawMem(Backend *self, void *p, size_t sz) { g_free_calls++; g_free_ptr = (uintptr_t)p; g_free_size = sz; return nondet_bool(); }
+static void STUB_MemRegionList_add(MemRegionList *l, MemRegion *r) { g_add_calls++; g_add_ptr = (uintptr_t)r; }
+static void STUB_Backend_startUseBlock(Backend *self, MemRegion *r, FreeBlock *b, bool addToBin) { g_use_calls++; g_use_region = (uintptr_t)r; g_use_block = (uintptr_t)b; g_use_addToBin = addToBin; }
+static void STUB_binsModified(Backend *self) { }
+#include "region.inc"
+size_t IN_size, IN_raw; uintptr_t IN_base; int IN_type; bool IN_fixed;
+void h_region(void) {
+    ExtMemoryPool pool; Backend be; be.extMemPool = &pool; pool.fixedPool = IN_fixed = nondet_bool();
+    SIZEOF_MemRegion = nondet_size_t(); SIZEOF_LastFreeBlock = nondet_size_t();
+    __CPROVER_assume(SIZEOF_MemRegion >= 8 && SIZEOF_MemRegion <= 4096 && SIZEOF_MemRegion % 8 == 0 && SIZEOF_LastFreeBlock >= sizeof(FreeBlock) && SIZEOF_LastFreeBlock <= 4096 && SIZEOF_LastFreeBlock % sizeof(uintptr_t) == 0);
+    size_t size = IN_size = nondet_size_t(); int type = IN_type = g_type = nondet_int(); bool addToBin = nondet_bool();
+    __CPROVER_assume(type == MEMREG_SLAB_BLOCKS || type == MEMREG_LARGE_BLOCKS || type == MEMREG_ONE_BLOCK);
+    /* sizes that reach the backend do not wrap when the region overhead is added: they come from getFromLLOCache's wrapped-size guard (job largeobj.size_guard) or are small constants */
+    __CPROVER_assume(size <= SIZE_MAX - ((size_t)1 << 16));
+    g_base = IN_base = nondet_uintptr_t(); g_raw = IN_raw = nondet_size_t(); g_refuse = nondet_bool(); g_asked = false;
+    /* what the raw allocator hands out is real memory: [base, base+raw) does not wrap, lies in user space */
+    __CPROVER_assume(g_base >= 4096 && g_base < ADDR_TOP && g_raw <= ADDR_TOP - g_base);
+    g_free_calls = g_add_calls = g_use_calls = 0; g_mr_type_set = g_mr_allocSz_set = g_mr_blockSz_set = false; g_mr_type = nondet_int(); g_mr_allocSz = nondet_size_t(); g_mr_blockSz = nondet_size_t();
+    FreeBlock *r = Backend_addNewRegion(&be, size, (MemRegionType)type, addToBin);
+    if (g_refuse) {
+        OBLIGATION(r == NULL && g_free_calls == 0 && g_add_calls == 0 && g_use_calls == 0, "C18.region: a refused raw allocation is reported as nullptr - nothing is registered, used or freed");
+    } else if (r == NULL) {
+        OBLIGATION(g_add_calls == 0 && g_use_calls == 0, "C18.region: raw memory that cannot be used is neither registered nor used");
+        OBLIGATION(pool.fixedPool ? g_free_calls == 0 : (g_free_calls == 1 && g_free_ptr == g_base && g_free_size == g_raw), "C18.region: raw memory that cannot be used is given back to the raw allocator exactly once, with the address and size it was obtained with (a fixed pool's buffer is never given back)");
+    } else {
+        OBLIGATION(g_free_calls == 0, "C18.region: a region that is put to use is not given back");
+        OBLIGATION(g_add_calls == 1 && g_add_ptr == g_base, "C18.region: a region that is put to use is registered exactly once (so that pool destruction can return it)");
+        OBLIGATION(g_mr_allocSz_set && g_mr_allocSz == g_raw, "C18.region: the region header records the size the raw allocator really handed out (the size passed back to rawFree later)");
+        OBLIGATION(g_use_calls == 1 && g_use_region == g_base && g_mr_blockSz_set, "C18.region: exactly one block is carved out of the new region");
+        OBLIGATION(r == (addToBin ? (FreeBlock *)VALID_BLOCK_IN_BIN : (FreeBlock *)g_use_block) && g_use_addToBin == addToBin, "C18.region: the block is either filed in a bin or handed to the caller, not both");
+        uintptr_t b = g_use_block;
+        OBLIGATION(b >= g_base + SIZEOF_MemRegion && b % sizeof(uintptr_t) == 0, "C18.region: the block starts behind the region header, word aligned");
+        OBLIGATION(g_mr_blockSz >= FreeBlock_minBlockSize && b + g_mr_blockSz >= b && b + g_mr_blockSz + SIZEOF_LastFreeBlock <= g_base + g_raw, "C18.region: the block and the end marker behind it lie inside the raw memory obtained from the pool's own raw allocator");
+        OBLIGATION(type == MEMREG_SLAB_BLOCKS ? ((b + g_mr_blockSz) % slabSize == 0 && g_mr_blockSz >= numOfSlabAllocOnMiss * slabSize) : g_mr_blockSz >= size, "C18.region: a slab region's block ends on a slab boundary and holds a full slab request; any other region's block holds the requested size");
+    }
+    VACUITY_END();
+}
+#endif
+
+#ifdef DESTROY
+/* ExtMemoryPool::destroy -> Backend::destroy: every raw region the pool registered is given back to the raw allocator exactly once, with the size recorded in its header.
+   The region list is a per-index representation (region i is THE i-th region, its successor is region i+1): regions are pairwise distinct by construction; g_k is an arbitrary one. */
+#include <stdlib.h>
+typedef struct MemRegion MemRegion;
+typedef struct IndexedBins { int unused; } IndexedBins;
+typedef struct MemRegionList { MemRegion *head; } MemRegionList;
+typedef struct ExtMemoryPool ExtMemoryPool;
+typedef struct Backend { ExtMemoryPool *extMemPool; MemRegionList regionList; IndexedBins freeLargeBlockBins, freeSlabAlignedBins; } Backend;
+struct ExtMemoryPool { void *rawAlloc; void *rawFree; size_t granularity; Backend backend; };
+#define NMAXREG ((size_t)1 << 12)
+static size_t g_n; static size_t *g_alloc;        /* number of regions, their recorded sizes */
+static size_t g_k; static int g_freed_k; static bool g_badsize, g_badptr; static bool g_bins_reset;
+#define REG(i) ((MemRegion *)(((uintptr_t)(i) + 1) << 12))
+#define RIDX(p) ((size_t)(((uintptr_t)(p)) >> 12) - 1)
+#define HEADIDX(h) ((h) == NULL ? g_n : RIDX(h))
+static MemRegion *mr_next(MemRegion *r) { size_t i = RIDX(r); __CPROVER_assert(r == REG(i) && i < g_n, "C18.destroy: only registered regions are visited"); return i + 1 < g_n ? REG(i + 1) : NULL; }
+static size_t mr_allocSz(MemRegion *r) { size_t i = RIDX(r); __CPROVER_assert(r == REG(i) && i < g_n, "C18.destroy: only registered regions are visited"); return g_alloc[i]; }
+#define MR_RD_next(r) mr_next(r)
+#define MR_RD_allocSz(r) mr_allocSz(r)
+#define MR_RD_blockSz(r) (nondet_size_t())      /* not the size the region was obtained with */
+static bool STUB_Backend_freeRawMem(Backend *self, MemRegion *p, size_t sz) {
+    size_t i = RIDX(p);
+    if (!(p == REG(i) && i < g_n)) g_badptr = true;
+    else { if (sz != g_alloc[i]) g_badsize = true; if (i == g_k && g_freed_k < 2) g_freed_k++; }
+    return nondet_bool();       /* the callback may report failure; the walk goes on */
+}
+static void STUB_IndexedBins_reset(IndexedBins *b) { g_bins_reset = true; }
+static void STUB_loc_reset(ExtMemoryPool *p) { } static void STUB_allLocalCaches_reset(ExtMemoryPool *p) { }
+static bool STUB_tlsPointerKey_destroy(ExtMemoryPool *p) { return nondet_bool(); }
+static bool STUB_isPoolValid(ExtMemoryPool *p) { return p->granularity != 0; }
+#define LOOP_destroy_1 __CPROVER_assigns(self->regionList.head, noError, g_freed_k, g_badsize, g_badptr) \
+   __CPROVER_loop_invariant((self->regionList.head == NULL || (self->regionList.head == REG(RIDX(self->regionList.head)) && RIDX(self->regionList.head) < g_n)) \
+        && g_freed_k == (g_k < HEADIDX(self->regionList.head) ? 1 : 0) && !g_badsize && !g_badptr) \
+   __CPROVER_decreases(g_n - HEADIDX(self->regionList.head))
+#include "destroy.inc"
+void h_destroy(void) {
+    static ExtMemoryPool pool; pool.backend.extMemPool = &pool;
+    g_n = nondet_size_t(); __CPROVER_assume(g_n <= NMAXREG);
+    g_alloc = malloc((g_n + 1) * sizeof(size_t)); __CPROVER_assume(g_alloc != NULL);
+    g_k = nondet_size_t(); __CPROVER_assume(g_k < g_n || g_n == 0);
+    pool.rawAlloc = nondet_bool() ? (void *)&pool : NULL; pool.rawFree = nondet_bool() ? (void *)&pool : NULL; pool.granularity = 4096;
+    __CPROVER_assume(pool.rawAlloc != NULL || pool.rawFree == NULL);       /* the default pool has neither callback */
+    pool.backend.regionList.head = g_n ? REG(0) : NULL; g_freed_k = 0; g_badsize = g_badptr = g_bins_reset = false;
+    bool user = pool.rawAlloc != NULL, canFree = pool.rawFree != NULL;
+    ExtMemoryPool_destroy(&pool);
+    OBLIGATION(!g_badptr && !g_badsize, "C18.destroy: only registered regions are handed to the raw deallocator, each with the size recorded when it was obtained");
+    if (user && !canFree) OBLIGATION(g_freed_k == 0, "C18.destroy: a pool without a raw deallocator (fixed pool) never has one invoked");
+    else if (g_n > 0) OBLIGATION(g_freed_k == 1 && pool.backend.regionList.head == NULL, "C18.destroy: every raw region of the pool is given back exactly once - none is leaked, none is freed twice");
+    OBLIGATION(pool.granularity == 0, "C18.destroy: the pool is marked invalid afterwards (a second pool_destroy is detectable)");
+    VACUITY_END();
+}
+#endif
+
+#ifdef POOLAPI
+/* rml::pool_create_v1 / pool_destroy / pool_reset: policy validation and the failure paths of pool creation (library initialisation fails, the pool object cannot be
+   allocated, MemoryPool::init fails).  internalMalloc / internalFree / memset are the recording stubs from the top of this file. */
+struct MemoryPool { char bytes[48]; };
+typedef struct rml_MemoryPool rml_MemoryPool;
+typedef struct MemPoolPolicy { void *pAlloc; void *pFree; size_t granularity; int version; unsigned fixedPool : 1, keepAllMemory : 1, reserved : 30; } MemPoolPolicy;
+enum { POOL_OK = 0, INVALID_POLICY = 11, UNSUPPORTED_POLICY = 12, NO_MEMORY = 13, NO_EFFECT = 14 };       /* the code names them; only their being distinct matters */
+static bool g_lib_inited, g_lib_init_ok, g_pool_init_ok, g_destroy_ret, g_reset_ret; static int g_init_calls, g_destroy_calls, g_reset_calls, g_libinit_calls; static int g_order; static int g_init_at, g_destroy_at;
+static bool STUB_isMallocInitialized(void) { return g_lib_inited; }
+static bool STUB_doInitialization(void) { g_libinit_calls++; return g_lib_init_ok; }
+static bool STUB_MemoryPool_init(MemoryPool *p, intptr_t id, const MemPoolPolicy *pol) { g_init_calls++; g_init_at = ++g_order; return g_pool_init_ok; }
+static bool STUB_MemoryPool_destroy(MemoryPool *p) { g_destroy_calls++; g_destroy_at = ++g_order; OBLIGATION(g_free_calls == 0, "C18.pool: the pool object is still allocated while it is being destroyed"); return g_destroy_ret; }
+static bool STUB_MemoryPool_reset(MemoryPool *p) { g_reset_calls++; return g_reset_ret; }
+#include "poolapi.inc"
+void h_poolapi(void) {
+    MemPoolPolicy pol; pol.pAlloc = nondet_bool() ? (void *)g_obj2 : NULL; pol.pFree = nondet_bool() ? (void *)g_obj2 : NULL; pol.granularity = nondet_size_t(); pol.version = nondet_int();
+    pol.fixedPool = nondet_bool(); pol.keepAllMemory = nondet_bool(); pol.reserved = nondet_unsigned() & 0x3fffffff;
+    reset(); g_lib_inited = nondet_bool(); g_lib_init_ok = nondet_bool(); g_pool_init_ok = nondet_bool(); g_init_calls = g_destroy_calls = g_reset_calls = g_libinit_calls = g_order = 0;
+    rml_MemoryPool *out = (rml_MemoryPool *)g_obj2;
+    int rc = pool_create_v1(nondet_long(), &pol, &out);
+    bool invalid = !pol.pAlloc || pol.version < 1 || (!pol.fixedPool && !pol.pFree), unsupported = !invalid && (pol.version > 1 || pol.reserved);
+    OBLIGATION((rc == POOL_OK) == (out != NULL), "C18.pool: pool_create_v1 hands out a pool exactly when it reports POOL_OK; every failure stores nullptr");
+    if (invalid) OBLIGATION(rc == INVALID_POLICY && g_malloc_calls == 0 && g_init_calls == 0, "C18.pool: a policy without an allocation callback, of too old a version, or growing without a free callback is INVALID_POLICY - nothing is allocated");
+    else if (unsupported) OBLIGATION(rc == UNSUPPORTED_POLICY && g_malloc_calls == 0 && g_init_calls == 0, "C18.pool: a newer policy version or reserved flags are UNSUPPORTED_POLICY - nothing is allocated");
+    else if (!g_lib_inited && !g_lib_init_ok) OBLIGATION(rc == NO_MEMORY && g_malloc_calls == 0 && g_init_calls == 0, "C18.pool: failed library initialisation is NO_MEMORY");
+    else if (g_fail) OBLIGATION(rc == NO_MEMORY && g_malloc_calls == 1 && g_init_calls == 0 && g_free_calls == 0, "C18.pool: when the pool object cannot be allocated the result is NO_MEMORY and nothing is initialised or freed");
+    else if (!g_pool_init_ok) OBLIGATION(rc == NO_MEMORY && g_init_calls == 1 && g_free_calls == 1 && g_freed == (void *)g_obj, "C18.pool: when MemoryPool::init fails the pool object is freed exactly once (no leak) and NO_MEMORY is reported");
+    else OBLIGATION(rc == POOL_OK && out == (rml_MemoryPool *)g_obj && g_init_calls == 1 && g_free_calls == 0 && g_malloc_calls == 1 && g_malloc_arg == sizeof(MemoryPool), "C18.pool: success hands out the initialised pool object, not freed");
+    /* pool_destroy / pool_reset */
+    reset(); g_destroy_calls = g_reset_calls = 0; g_destroy_ret = nondet_bool(); g_reset_ret = nondet_bool();
+    rml_MemoryPool *p = nondet_bool() ? (rml_MemoryPool *)g_obj : NULL;
+    if (nondet_bool()) {
+        bool r = pool_destroy(p);
+        OBLIGATION(p ? (r == g_destroy_ret && g_destroy_calls == 1 && g_free_calls == 1 && g_freed == (void *)p) : (!r && g_destroy_calls == 0 && g_free_calls == 0), "C18.pool: pool_destroy(nullptr) is false and does nothing; otherwise the pool is destroyed once and then its object freed once");
+    } else {
+        bool r = pool_reset(p);
+        OBLIGATION(p ? (r == g_reset_ret && g_reset_calls == 1 && g_free_calls == 0) : (!r && g_reset_calls == 0), "C18.pool: pool_reset(nullptr) is false and does nothing; otherwise the pool is reset once and stays allocated");
     }
     VACUITY_END();
 }
